@@ -15,10 +15,15 @@ func init() { props["C26"] = c26 }
 func c26(c *Ctx) {
 	upto := c.N(3, 4)
 	c.Extra["exhaustive_upto"] = upto
+	c.Extra["max_vertices"] = 130
+	c.Extra["bit_layout"] = "model has one Bool per matrix cell / onStack entry; the 32-bit word packing is tied by correspondence only (word-boundary generators)"
 	c.Rule = fmt.Sprintf("every directed graph (self loops allowed, sorted adjacency, no parallel edges) on 0..%d vertices, exhaustively; "+
 		"then random graphs on 2..40 vertices: dense, sparse, DAGs (random topological order, shuffled adjacency), unions of cycles and chains, "+
-		"with self loops, with duplicate edges, shuffled adjacency order; plus a small malformed stream (successor >= len) where the real code must panic "+
-		"(Tarjan: only from 2 vertices on). Each graph is fed to Transpose, NewMatrix+AddEdge+Closure (+Graph, except on the 0x0 matrix where Graph() indexes ret[0]), "+
+		"with self loops, with duplicate edges, shuffled adjacency order; then word-boundary graphs on 31..34, 40, 63..66, 95..98, 127..130 (and random 33..130) vertices "+
+		"(the matrix is n*n bits in 32-bit words, cell i*n+e; Tarjan's onStack is a 32-bit-word bit set): the shape j->i->e with cell (i,e) on bit 0/31 of a word for every aligned e, "+
+		"random edges on bits 0/1/30/31 with predecessors, very sparse graphs with whole words empty, rows filling one aligned word, chains/cycles/back-edge chains that keep >32/64/96 vertices on the stack; "+
+		"plus a small malformed stream (successor >= len) where the real code must panic "+
+		"(Tarjan: only from 2 vertices on). Each graph is fed to Transpose, NewMatrix+AddEdge (+HasEdge, Graph), NewMatrix+AddEdge+Closure (+HasEdge, Graph; except on the 0x0 matrix where Graph() indexes ret[0]), "+
 		"LongestPath and Tarjan (callback sequence with the onStack set at callback time). Non-trivial = at least 2 vertices and 1 edge; distinct by (op, graph). "+
 		"The Tarjan case line carries the real component sequence so that the Lean side runs the verified validator checkScc on it.", upto)
 
@@ -86,6 +91,101 @@ func c26(c *Ctx) {
 			kind += " (shuffled)"
 		}
 		c26graph(c, g, "random "+kind)
+	}
+	// word boundaries: the bit matrix (n*n bits, cell i*n+e) and Tarjan's onStack set are packed in
+	// 32-bit words; the Lean model has one Bool per cell, so the layout is tied here only.
+	wordSizes := []int{31, 32, 33, 34, 40, 63, 64, 65, 66, 95, 96, 97, 98, 127, 128, 129, 130}
+	for _, nv := range wordSizes {
+		// the shape j -> i -> e with cell (i,e) on bit 0 / bit 31 of a word, everything else empty
+		for _, r := range []int{0, 31} {
+			for i := 0; i < 3; i++ {
+				for e := ((r-i*nv)%32 + 32) % 32; e < nv; e += 32 {
+					g := make([][]int, nv)
+					g[i] = []int{e}
+					j := (i + 1) % nv
+					g[j] = append(g[j], i)
+					c26graph(c, g, "word boundary: j->i->e, cell (i,e) on bit 0/31")
+				}
+			}
+		}
+	}
+	for i, n := 0, c.N(160, 1500); i < n; i++ {
+		nv := wordSizes[c.Rng.Intn(len(wordSizes))]
+		if c.Rng.Intn(4) == 0 {
+			nv = 33 + c.Rng.Intn(98)
+		}
+		var g [][]int
+		var kind string
+		switch c.Rng.Intn(6) {
+		case 0, 1:
+			kind = "aligned cells + sparse"
+			g = make([][]int, nv)
+			for k := 1 + c.Rng.Intn(4); k > 0; k-- {
+				// an edge whose cell lies on bit 0, 31, 1 or 30 of a word, with predecessors and a successor
+				r := []int{0, 0, 31, 31, 1, 30}[c.Rng.Intn(6)]
+				v := c.Rng.Intn(nv)
+				e0 := ((r-v*nv)%32 + 32) % 32
+				if e0 >= nv {
+					continue
+				}
+				e := e0 + 32*c.Rng.Intn((nv-e0+31)/32)
+				g[v] = append(g[v], e)
+				for p := 1 + c.Rng.Intn(2); p > 0; p-- {
+					j := c.Rng.Intn(nv)
+					g[j] = append(g[j], v)
+				}
+				if c.Rng.Intn(2) == 0 {
+					g[e] = append(g[e], c.Rng.Intn(nv))
+				}
+			}
+			for k := c.Rng.Intn(4); k > 0; k-- {
+				a := c.Rng.Intn(nv)
+				g[a] = append(g[a], c.Rng.Intn(nv))
+			}
+		case 2:
+			kind = "very sparse (whole words empty)"
+			g = randGraph(c.Rng, nv, []float64{0.3, 0.7, 1.2}[c.Rng.Intn(3)]/float64(nv), c.Rng.Intn(2) == 0)
+		case 3:
+			kind = "full words: a few rows with 32 aligned targets"
+			g = make([][]int, nv)
+			for k := 1 + c.Rng.Intn(3); k > 0; k-- {
+				v := c.Rng.Intn(nv)
+				e0 := ((-v*nv)%32 + 32) % 32
+				for e := e0; e < e0+32 && e < nv; e++ {
+					g[v] = append(g[v], e)
+				}
+				j := c.Rng.Intn(nv)
+				g[j] = append(g[j], v)
+			}
+		case 4:
+			kind = "chain / cycle / chain with back edges (deep stack across onStack words)"
+			g = make([][]int, nv)
+			perm := c.Rng.Perm(nv)
+			if c.Rng.Intn(2) == 0 {
+				for k := range perm {
+					perm[k] = k
+				}
+			}
+			for k := 0; k+1 < nv; k++ {
+				g[perm[k]] = append(g[perm[k]], perm[k+1])
+			}
+			switch c.Rng.Intn(3) {
+			case 0:
+				g[perm[nv-1]] = append(g[perm[nv-1]], perm[0])
+			case 1:
+				for b := 1 + c.Rng.Intn(3); b > 0; b-- {
+					hi := c.Rng.Intn(nv)
+					g[perm[hi]] = append(g[perm[hi]], perm[c.Rng.Intn(hi+1)])
+				}
+			}
+		default:
+			kind = "sparse dag"
+			g = randDag(c.Rng, nv, 1.5/float64(nv))
+		}
+		if c.Rng.Intn(3) == 0 {
+			mess(c.Rng, g, c.Rng.Intn(2) == 0)
+		}
+		c26graph(c, g, "word boundary: "+kind)
 	}
 	// malformed stream
 	for i, n := 0, c.N(30, 300); i < n; i++ {
@@ -213,16 +313,9 @@ func c26graph(c *Ctx, g [][]int, bucket string) {
 		return intss(tr)
 	}), key("transpose"))
 
-	// Matrix closure (only well-formed graphs: AddEdge(i, e) with e >= n aliases another cell)
+	// Matrix without and with Closure (only well-formed graphs: AddEdge(i, e) with e >= n aliases another cell)
 	if wf {
-		c.Case("closure "+gs, guarded(func() string {
-			m := graph.NewMatrix(n)
-			for i, r := range g {
-				for _, e := range r {
-					m.AddEdge(i, e)
-				}
-			}
-			m.Closure()
+		dump := func(m graph.Matrix) string {
 			adj := make([][]int, n)
 			for i := 0; i < n; i++ {
 				for e := 0; e < n; e++ {
@@ -235,6 +328,36 @@ func c26graph(c *Ctx, g [][]int, bucket string) {
 			if n > 0 {
 				gr = intss(m.Graph(nil))
 			}
+			return intss(adj) + " " + gr
+		}
+		build := func() graph.Matrix {
+			m := graph.NewMatrix(n)
+			for i, r := range g {
+				for _, e := range r {
+					m.AddEdge(i, e)
+				}
+			}
+			return m
+		}
+		c.Case("matrix "+gs, guarded(func() string {
+			m := build()
+			for i := 0; i < n; i++ {
+				has := make([]bool, n)
+				for _, e := range g[i] {
+					has[e] = true
+				}
+				for e := 0; e < n; e++ {
+					if has[e] != m.HasEdge(i, e) {
+						c.Violate(fmt.Sprintf("Matrix: HasEdge(%d,%d)=%v after AddEdge of exactly the listed edges", i, e, m.HasEdge(i, e)), "matrix "+gs)
+						i, e = n, n
+					}
+				}
+			}
+			return dump(m)
+		}), key("matrix"))
+		c.Case("closure "+gs, guarded(func() string {
+			m := build()
+			m.Closure()
 			reach := reachMatrix(g)
 			for i := 0; i < n; i++ {
 				for e := 0; e < n; e++ {
@@ -248,7 +371,7 @@ func c26graph(c *Ctx, g [][]int, bucket string) {
 					}
 				}
 			}
-			return intss(adj) + " " + gr
+			return dump(m)
 		}), key("closure"))
 	}
 
